@@ -125,8 +125,8 @@ def hat_mp(spec, x):
 
 
 def run(ctx):
-    nth = 90 if ctx.quick else 600
-    naxes = 3 if ctx.quick else 6
+    nth = 90 if ctx.quick else 1200
+    naxes = 3 if ctx.quick else 8
     specs = [s for s in base_specs() if not isinstance(s, RnSpec) and not isinstance(s, SO2Spec)]
     units = []
     for s in specs:
